@@ -324,6 +324,7 @@ func compute(lunar *Lunar, lunarYear *LunarYear) {
 	computeDay(lunar)
 	computeTime(lunar)
 	computeWeek(lunar)
+	lunar.eightChar = NewEightChar(lunar)
 }
 
 // GetGan @Deprecated: 该方法已废弃，请使用GetYearGan
@@ -991,9 +992,6 @@ func (lunar *Lunar) GetTimeNaYin() string {
 }
 
 func (lunar *Lunar) GetEightChar() *EightChar {
-	if lunar.eightChar == nil {
-		lunar.eightChar = NewEightChar(lunar)
-	}
 	return lunar.eightChar
 }
 
